@@ -1,7 +1,7 @@
 """C09 — no operation succeeds without authentication and a granting permission (structural clauses)."""
 import re
 from lib import *
-from mir import render, walk, short
+from mir import render, walk, short, canon
 from engine import AnchorLost
 import permtables as pt
 import idkinds
@@ -102,6 +102,8 @@ def key_params(e):
 
 
 def run(ctx, rep):
+    from props import accessors as _acc
+    _acc.check(ctx, rep, 'C09', 'R09.acc')
     pt.CTX = ctx
     ops = session_ops(ctx)
     # ------------------------------------------------------------ R09.a
@@ -179,6 +181,14 @@ def run(ctx, rep):
             rep.ob('R09.a', f, 'rule:' + want, False, b.where(bad[0]), 'a successful return is reachable without a successful Permissioner::%s (path through lines %s)' % (want, lines))
         else:
             rep.ob('R09.a', f, 'rule:' + want, True, rc[0].where(), 'every data-returning Ok path passes Permissioner::%s' % want)
+
+    rep.rule('R09.h', 'the gate itself: ensure_authenticated returns Ok only for an active session with a non-zero user id', floor=1, analysis='A3')
+    eb = ctx.fn_body(AUTH)
+    for blk in sorted(strict_ok_exit_blocks(eb)):
+        lits = bool_literals_at(eb, blk)
+        act = any(e[0] == 'call' and e[1].endswith('Session::is_active') and t for e, t, _ in lits)
+        aut = any(e[0] == 'call' and e[1].endswith('Session::is_authenticated') and t for e, t, _ in lits)
+        rep.ob('R09.h', AUTH, 'Ok ⇒ active ∧ authenticated', act and aut, eb.where(blk), 'Ok only under is_active() and is_authenticated()' if act and aut else 'ensure_authenticated can succeed without %s' % [n for n, v in (('is_active', act), ('is_authenticated', aut)) if not v])
 
     # ------------------------------------------------------------ R09.b id kinds
     rep.rule('R09.b', 'ids handed to permission rules and to entity lookups have the kind the parameter is declared for (no swapped stream/topic/user ids)', floor=150, analysis='A13')
@@ -323,6 +333,42 @@ def run(ctx, rep):
         ok = bool(cs) and not (exits & db.reachable(0, avoid_blocks={c.bb for c in cs}))
         rep.ob('R09.d', P + '::delete_permissions_for_user', 'clear ' + fld, ok, cs[0].where() if cs else None,
                'cleared on every path' if ok else 'table `%s` is not cleared when a user\'s permissions are deleted or replaced: a revoked grant keeps working' % fld)
+    # the clearing call selects exactly the entries of this user: remove(&user_id) / retain(|key| key.<position of the user id in the inserted key> != user_id)
+    keypos = {}
+    for c in ib.calls:
+        if c.name.split('::')[-1] != 'insert' or not is_user_call(c) or len(c.args) < 2:
+            continue
+        tgt = ib.expr_operand(c.args[0])
+        if tgt[0] != 'field' or tgt[3] != P:
+            continue
+        k = ib.expr_operand(c.args[1])
+        if k[0] == 'tuple':
+            pos = [i for i, x in enumerate(k[1]) if x == ('param', 'user_id')]
+            keypos[tgt[2]] = pos[0] if len(pos) == 1 else None
+        else:
+            keypos[tgt[2]] = 'whole' if k == ('param', 'user_id') else None
+    for fld, cs in sorted(cleared.items()):
+        for c in cs:
+            kp = keypos.get(fld)
+            if c.name.split('::')[-1] == 'remove':
+                k = db.expr_operand(c.args[1])
+                ok = kp == 'whole' and k == ('param', 'user_id')
+                rep.ob('R09.d', P + '::delete_permissions_for_user', 'selects the user\'s entries in ' + fld, ok, c.where(),
+                       'remove(&user_id)' if ok else 'the entry removed from `%s` is keyed by `%s`, not by the user id the table is keyed by' % (fld, render(k)))
+            else:
+                clo = db.expr_operand(c.args[1])
+                forms_ = set()
+                if clo[0] == 'closure' and ctx.has(clo[1]):
+                    cb_ = ctx.body(clo[1])
+                    for blk in sorted(cb_.reach):
+                        for s_ in cb_.stmts(blk):
+                            if s_.get('lhs') == [0]:
+                                forms_.add(canon(cb_._pexpr_rvalue(s_['rv'], 0, frozenset())))
+                want = '(arg2.%s != user_id)' % kp
+                ok = isinstance(kp, int) and forms_ == {want}
+                rep.ob('R09.d', P + '::delete_permissions_for_user', 'selects the user\'s entries in ' + fld, ok, c.where(),
+                       'retain(key.%s != user_id), the user id being component %s of the inserted key' % (kp, kp) if ok else
+                       'the entries kept in `%s` are selected by `%s`; the user id is component %s of the key that init_permissions_for_user inserts (expected `%s`): another user\'s grants are dropped and this user\'s revoked grants survive' % (fld, sorted(forms_), kp, want))
     ub = ctx.fn_body(P + '::update_permissions_for_user')
     dc = ub.find_calls(P + '::delete_permissions_for_user')
     ic = ub.find_calls(P + '::init_permissions_for_user')
@@ -336,6 +382,20 @@ def run(ctx, rep):
         excl = rec and rec['params'][0].startswith('&mut ')
         rep.ob('R09.d', SYS + '::' + op, 'reaches ' + callee, ok and excl, cs[0].where() if cs else None,
                'tables rebuilt before Ok, under &mut System' if ok and excl else 'Ok is reachable without %s (or the operation is not exclusive)' % callee)
+
+    # ------------------------------------------------------------ R09.i the permission record survives its byte encoding
+    rep.rule('R09.i', 'a permission record keeps every flag through its byte encoding (binary requests, journal replay): Permissions::to_bytes emits the flags in the order Permissions::from_bytes stores them', floor=2, analysis='A11')
+    import wire
+    PW = '<iggy::models::permissions::Permissions as iggy::bytes_serializable::BytesSerializable>::'
+    if not ctx.has(PW + 'to_bytes') or not ctx.has(PW + 'from_bytes'):
+        rep.anchor_lost('R09.i', 'Permissions codec')
+    else:
+        nw, nr = wire.named_writer(ctx, PW + 'to_bytes'), wire.named_reader(ctx, PW + 'from_bytes')
+        okn, x, y = wire.named_agreement(nw, nr)
+        rep.ob('R09.i', PW + 'to_bytes', 'flag order written = flag order read', okn, None, ' '.join(x)[:160] if okn else
+               'Permissions::to_bytes emits [%s] but from_bytes stores the values as [%s]: a flag is encoded from / decoded into another one' % (' '.join(x), ' '.join(y)))
+        flags = {f for f in x if f.startswith(('manage_', 'read_', 'poll_', 'send_'))}
+        rep.ob('R09.i', PW + 'to_bytes', 'all 14 distinct flag names covered', len(flags) >= 14 and len(x) >= 20, None, '%d flag positions, %d distinct flags' % (len(x), len(flags)))
 
     # ------------------------------------------------------------ R09.e root protected
     rep.rule('R09.e', 'the root user can be neither deleted nor stripped of permissions: the mutation is dominated by the !is_root() edge', floor=3, analysis='A3')
